@@ -618,7 +618,12 @@ func (p *parser) parseForOrForInStatement() ast.Statement {
 		p.comments.Unset()
 	}
 	p.expect(token.SEMICOLON)
-	initializer := &ast.SequenceExpression{Sequence: left}
+	// "for (;;)" has no initializer: leave the field nil, like Test and Update, instead of
+	// wrapping nothing in a SequenceExpression (whose Idx0/Idx1 index Sequence[0]).
+	var initializer ast.Expression
+	if len(left) > 0 {
+		initializer = &ast.SequenceExpression{Sequence: left}
+	}
 	forstatement := p.parseFor(initializer)
 	forstatement.For = idx
 	if p.mode&StoreComments != 0 {
